@@ -217,6 +217,16 @@ func (s *c19State) battery(r *gen.R, exhaustiveSub int, mine []string) {
 			s.checkSubVariant(sub, caseVariant(sub, r.Intn(nv))+tail)
 		}
 	}
+	// the listings belong to the caller: overwriting them must not disturb later listings
+	for k := range list {
+		list[k] = "\uffff scribbled by the caller"
+	}
+	_ = append(list[:0], "\uffff", "\uffff")
+	regd := decoration.RegisteredDecorationNames()
+	for k := range regd {
+		regd[k] = "\uffff scribbled by the caller"
+	}
+	_ = append(regd, "\uffff", "\uffff", "\uffff", "\uffff", "\uffff")
 	// unknown names fail closed
 	for k := 0; k < 6 && !s.bad; k++ {
 		base := fmt.Sprintf("zz-never-registered-%d-%s", r.Intn(1<<30), r.Word())
